@@ -27,9 +27,29 @@ class SymBackend:
     def _register(self, name, arr):
         self.EXP.inputs[name] = arr
 
+    def _reused(self, name):
+        """twin runs (begin_twin) get the SAME symbolic arrays under the same input names"""
+        if getattr(self, "_twin_on", False) and name in self.EXP.inputs:
+            return self.jnp.ndarray(self.EXP.inputs[name].copy())
+        return None
+
+    def begin_twin(self, outcomes):
+        """second run of the same program on this path: inputs are re-used by name, the sampler stub replays the outcome
+        recorded for the same key (outcomes: str(key) -> k) instead of forking, and constrains nothing"""
+        self._twin_on = True
+        self.EXP.twin = dict(outcomes)
+
+    def end_twin(self):
+        self._twin_on = False
+        self.EXP.twin = None
+
     def vector(self, name, d):
         """arbitrary unit vector in C^d: 2d real symbols, the last one's square is rewritten by the norm"""
         from .core import ONE, Poly, SC, pvar
+
+        r = self._reused(name)
+        if r is not None:
+            return r
 
         ents = []
         others = core.ZERO
@@ -69,6 +89,9 @@ class SymBackend:
         arbitrary rank<=2 state psi1 psi1^+ + psi2 psi2^+ ('rank2': always a valid state)"""
         from .core import ONE, Poly, SC, ZERO, pvar
 
+        r = self._reused(name)
+        if r is not None:
+            return r
         arr = np.empty((d, d), dtype=object)
         assume_physical = param == "hermphys"
         if assume_physical:
@@ -164,6 +187,9 @@ class SymBackend:
 
     def operator(self, name, rows, cols=None, numpy_array=False):
         """fully symbolic complex matrix"""
+        r = self._reused(name)
+        if r is not None:
+            return r._v.copy() if numpy_array else r
         cols = rows if cols is None else cols
         arr = np.empty((rows, cols), dtype=object)
         for i in range(rows):
@@ -453,15 +479,25 @@ class RealBackend:
             a_np = np.asarray(a)
             vals = list(range(int(a_np))) if a_np.ndim == 0 else [int(x) for x in a_np.flatten()]
             pl = None if p is None else [complex(x) for x in np.asarray(p).flatten()]
-            if B.choices:
+            kr = np.asarray(key).tolist() if not hasattr(key, "term") else key.term
+            tw = getattr(B, "_twin", None)
+            if tw is not None and str(kr) in tw:
+                k = tw[str(kr)]
+            elif B.choices:
                 k = B.choices.pop(0)
             else:
                 k = 0
-            B.draws.append({"key": np.asarray(key).tolist() if not hasattr(key, "term") else key.term, "p": pl,
+            B.draws.append({"key": kr, "p": pl,
                             "k": k, "vals": vals})
             return B.jnp.array(vals[min(k, len(vals) - 1)])
 
         jax.random.choice = choice
+
+    def begin_twin(self, outcomes):
+        self._twin = dict(outcomes)
+
+    def end_twin(self):
+        self._twin = None
 
     def _get(self, name):
         v = self.inputs[name]
